@@ -410,6 +410,12 @@ pub fn run(report: &Report, thorough: bool) -> Evidence {
         for w in ["asgulo", "kothagulo", "amader", "bolte", "manushera", "somoyer", "phulgulo", "deshe"] {
             seq.push(w.to_string());
         }
+        // very long words early and in the middle of every order: whatever scratch state (pattern buffers, capacities) a
+        // long word leaves behind meets hundreds of ordinary words afterwards
+        for (k, w) in ["shikkhaprotisthangulote", "oporibortonshilotaguloke", "aaaaaaaaaaaaaaaaaaaaaaaa", "biswobidyaloygulotei", "(shadhinotajuddhokalinder)."].iter().enumerate() {
+            let at = if k % 2 == 0 { 3 + k } else { seq.len() / 2 + k };
+            seq.insert(at.min(seq.len()), w.to_string());
+        }
         // four orders of the same word list, each in its own long-lived context
         let orders: Vec<Vec<String>> = vec![
             seq.clone(),
